@@ -1,3 +1,4 @@
+import Sparrow.Proofs.SourceLegComposed
 import Sparrow.Proofs.SourceLegClosed
 import Sparrow.Proofs.PointFactorEquiv
 import Sparrow.Proofs.SourceGlueEquiv
@@ -187,3 +188,39 @@ theorem source2patchEnergy_closed (thr : ℝ) (P B : Nat) (src : Nat → ℝ) (p
   Sparrow.source2patchEnergy_closed thr P B src pc pp vis att s0 s1 s2 s3 s4 j b hj
 
 end Sparrow.Props.C04.Closed
+
+namespace Sparrow.Props.C04.Composed
+open Sparrow Sparrow.Generated.LegKernels Sparrow.Generated.PointFactor Sparrow.Generated.VisibilityFn Sparrow.Generated.PolygonFn
+
+
+theorem srcVisT_eq (thr eta : ℝ) (src : Nat → ℝ) (pc : Nat → Nat → ℝ) (wp : Nat → Nat → Nat → ℝ) (nvw : Nat)
+    (wn : Nat → Nat → ℝ) (nS j : Nat) :
+    srcVisT thr eta src pc wp nvw wn nS j =
+      visibleThroughAll eta (Vec3.ofFn src) (Vec3.ofFn (fun q => pc j q)) nS
+        (fun s => ptsOf (fun k q => wp s k q)) nvw (fun s => Vec3.ofFn (fun q => wn s q)) :=
+  Sparrow.srcVisT_eq thr eta src pc wp nvw wn nS j
+
+/-- **a patch hidden from the source (or seen from behind, or coplanar) receives exactly zero** — the composed regenerated text,
+    every scene, every band, with or without attenuation -/
+theorem source2patch_composed_hidden_zero (thr eta : ℝ) (P B nvp : Nat) (src : Nat → ℝ) (pc : Nat → Nat → ℝ)
+    (pp : Nat → Nat → Nat → ℝ) (wp : Nat → Nat → Nat → ℝ) (nvw : Nat) (wn : Nat → Nat → ℝ) (nS : Nat) (att : Option (Nat → ℝ))
+    (s0 s1 s2 s3 s4 : Nat) (j b : Nat) (hj : j < P)
+    (hv : visibleThroughAll eta (Vec3.ofFn src) (Vec3.ofFn (fun q => pc j q)) nS
+        (fun s => ptsOf (fun k q => wp s k q)) nvw (fun s => Vec3.ofFn (fun q => wn s q)) = false) :
+    (source2patchEnergyUniversal (fun x pts => ptSolutionSource thr x pts nvp) 3 src P 3 pc s0 s1 s2 pp s3
+        (srcVisT thr eta src pc wp nvw wn nS) s4 att B).1 j b = 0 :=
+  Sparrow.source2patch_composed_hidden_zero thr eta P B nvp src pc pp wp nvw wn nS att s0 s1 s2 s3 s4 j b hj hv
+
+/-- **a visible patch receives the solid-angle share of the model (`ptSource`), times `exp(-m d)` if there is attenuation** -/
+theorem source2patch_composed_visible (thr eta : ℝ) (P B nvp : Nat) (src : Nat → ℝ) (pc : Nat → Nat → ℝ)
+    (pp : Nat → Nat → Nat → ℝ) (wp : Nat → Nat → Nat → ℝ) (nvw : Nat) (wn : Nat → Nat → ℝ) (nS : Nat) (att : Option (Nat → ℝ))
+    (s0 s1 s2 s3 s4 : Nat) (j b : Nat) (hj : j < P)
+    (hv : visibleThroughAll eta (Vec3.ofFn src) (Vec3.ofFn (fun q => pc j q)) nS
+        (fun s => ptsOf (fun k q => wp s k q)) nvw (fun s => Vec3.ofFn (fun q => wn s q)) = true) :
+    (source2patchEnergyUniversal (fun x pts => ptSolutionSource thr x pts nvp) 3 src P 3 pc s0 s1 s2 pp s3
+        (srcVisT thr eta src pc wp nvw wn nS) s4 att B).1 j b =
+      sourceEnergy true (Vec3.norm (Vec3.sub ⟨src 0, src 1, src 2⟩ ⟨pc j 0, pc j 1, pc j 2⟩)) (att.map fun a => a b)
+        (ptSource thr (Vec3.ofFn src) (ptsOf (fun v q => pp j v q)) nvp) :=
+  Sparrow.source2patch_composed_visible thr eta P B nvp src pc pp wp nvw wn nS att s0 s1 s2 s3 s4 j b hj hv
+
+end Sparrow.Props.C04.Composed
